@@ -4,9 +4,10 @@
      C01_fragment_preservation -- semantic preservation of the backend model (Back/IR.v `lower` + the AST
      twin Pres/EmitAst.v of the text emitter Back/Emit.v) with respect to the reference interpreter
      Sem/SyltSem.v (source side) and the Lua 5.3 interpreter model Lua/LuaCore.v (target side), for the
-     computable fragment Pres/Frag.v `frag` (STAGE 4a: int/bool expressions, print, definitions, assignments
+     computable fragment Pres/Frag.v `frag` (STAGE 4b: int/bool expressions, print, definitions, assignments
      = += -= *=, if/elif/else expressions and statements, loops with break and continue, blocks, inside
-     `start :: fn do ... end`; top-level global values and top-level FUNCTIONS with parameters before start,
+     top-level functions; the outer definitions (global values and FUNCTIONS with parameters, `start` among them, in any
+     order the resolver gives them),
      called by name, recursion included; the value of a function is that of its last expression or of an
      early `ret e`, also from inside if-branches and loops).  The Lua side runs the statements of the
      REAL preamble.lua (Gen/GenPreamble.v, regenerated on every run) followed by the program's statements.
@@ -322,6 +323,42 @@ Example C01_example5_lua_side :
   match lower 30 ex_prog5 with
   | Ok code => let out := LuaCore.run_block Lua53 4900 (chunk_ast code) in
                o_trace out = ["4"; "-1"]%string /\ o_final out = FDone
+  | _ => False
+  end.
+Proof. vm_compute. split; reflexivity. Qed.
+
+(* ---- a sixth program (stage 4b): outer definitions after start; a global initialiser that calls a function ----
+     twice :: fn a: int -> int do a + a end
+     start :: fn do print(twice(4)) end
+     late :: twice(10)
+     other :: fn -> int do print(late)  late end                                                  *)
+Definition ex_prog6 : resolved :=
+  mkResolved
+    [mkVar 0 "print" sp0 true Const; mkVar 1 "twice" sp0 true Const; mkVar 2 "start" sp0 true Const; mkVar 3 "late" sp0 true Const;
+     mkVar 4 "other" sp0 true Const; mkVar 5 "== STACK ==" sp0 false Const; mkVar 6 "a" sp0 false Const]
+    [SExternalDefinition "print" 0 Const (TImplied sp0) sp0;
+     SDefinition "twice" 1 Const (TImplied sp0)
+       (EFunction "lambda" [("a"%string, 6%N, sp0, TImplied sp0)] (TImplied sp0)
+          [SStatementExpression (EBinOp Add (ERead 6 sp0) (ERead 6 sp0) sp0) sp0] false sp0) sp0;
+     SDefinition "start" 2 Const (TImplied sp0)
+       (EFunction "lambda" [] (TImplied sp0)
+          [SStatementExpression (Resolved.ECall (ERead 0 sp0) [Resolved.ECall (ERead 1 sp0) [EInt 4 sp0] sp0] sp0) sp0] false sp0) sp0;
+     SDefinition "late" 3 Const (TImplied sp0) (Resolved.ECall (ERead 1 sp0) [EInt 10 sp0] sp0) sp0;
+     SDefinition "other" 4 Const (TImplied sp0)
+       (EFunction "lambda" [] (TImplied sp0)
+          [SStatementExpression (Resolved.ECall (ERead 0 sp0) [ERead 3 sp0] sp0) sp0;
+           SStatementExpression (ERead 3 sp0) sp0] false sp0) sp0].
+
+Example C01_example6_hypotheses :
+  frag 30 ex_prog6 = true /\
+  (exists code, lower 30 ex_prog6 = Ok code) /\
+  SyltSem.run 40 ex_prog6 = mkRun ["8"]%string ODone.
+Proof. split; [vm_compute; reflexivity | split; [eexists; vm_compute; reflexivity | vm_compute; reflexivity]]. Qed.
+
+Example C01_example6_lua_side :
+  match lower 30 ex_prog6 with
+  | Ok code => let out := LuaCore.run_block Lua53 4900 (chunk_ast code) in
+               o_trace out = ["8"]%string /\ o_final out = FDone
   | _ => False
   end.
 Proof. vm_compute. split; reflexivity. Qed.
